@@ -190,6 +190,7 @@ def scope_createInstance : List Ev := [
   .call "s.setInstance" [],
   .call "s.setInstance" [],
   .call "s.shareInstance" [],   -- nil result-object fields are remembered as constructed (b8e004e); not in M6 (no fan-out)
+  .call "s.shareInstance" [],   -- so is a nil interface-typed return value of a multi-return constructor (47ef227); not in M6
   .call "s.setInstance" [],
   .call "s.setInstance" [],
   .call "s.shareInstance" []
